@@ -1,7 +1,8 @@
 /-
 C01 - property theorems (statements only live here; helper lemmas are in B3/Proofs and B3/Tree).
 -/
-import B3.Proofs.Compress
+import B3.Proofs.GenK
+import B3.Proofs.OneShot
 namespace B3.Props.C01
 open B3
 
@@ -10,5 +11,39 @@ theorem rs_portable_compress_eq_spec (cv : CV) (block : St) (bl : UInt8) (t : UI
     Gen.Rs.compress_xof cv block bl t fl = Spec.compress cv block t bl.toUInt32 fl.toUInt32 ∧
     Gen.Rs.compress_in_place cv block bl t fl = first8 (Spec.compress cv block t bl.toUInt32 fl.toUInt32) :=
   ⟨Proofs.rs_compress_xof_eq cv block bl t fl, Proofs.rs_compress_in_place_eq cv block bl t fl⟩
+
+/-- For every byte string, every 32-byte key, every context string (`mode`) and every SIMD degree
+that is a power of two, the model of `hash` / `keyed_hash` / `derive_key` — `hash_all_at_once` with
+its SIMD-wide recursion, run with the compression function generated from src/portable.rs —
+returns exactly the first 32 bytes the specification defines. No bound on the input length. -/
+theorem hash_eq_spec (sd j : Nat) (hsd : sd = 2 ^ j) (mode : Spec.Mode) (m : List UInt8) :
+    Rs.oneShot genK sd mode m = Spec.hash mode m := by
+  rw [Proofs.genK_eq_spec]; exact Proofs.oneShot_eq_spec sd j hsd mode m
+
+/-- `hash_all_at_once` returns the specification's root *node* (so extended output agrees too) -/
+theorem hash_all_at_once_eq_root (key : CV) (flags : UInt8) (sd j : Nat) (hsd : sd = 2 ^ j) (m : List UInt8) :
+    Rs.hashAllAtOnce genK key flags sd m = Spec.rootNode key flags m := by
+  rw [Proofs.genK_eq_spec]; exact Proofs.hashAllAtOnce_eq_rootNode key flags sd j hsd m
+
+/-- `compress_subtree_to_parent_node` returns the two children of the spec's split, at every degree -/
+theorem to_parent_node_eq (key : CV) (flags : UInt8) (sd j : Nat) (hsd : sd = 2 ^ j) (t : Nat) (input : List UInt8)
+    (hn : 1024 < input.length) :
+    Rs.toParentNode genK key flags sd t input =
+      (Tr.collapse (Rs.parentCV genK key flags) key
+          (Hs.allLeaves 10 (Rs.leafCV genK key flags) t (input.take (Hs.leftLen 10 input.length))),
+       Tr.collapse (Rs.parentCV genK key flags) key
+          (Hs.allLeaves 10 (Rs.leafCV genK key flags) (t + Hs.leftLen 10 input.length / 2 ^ 10)
+            (input.drop (Hs.leftLen 10 input.length)))) :=
+  Hs.toPair_spec _ key 10 _ sd j hsd t input (by simpa using hn)
+
+/-- the source constants agree with the paper's (and with each other across Rust, C, reference) -/
+theorem consts_agree : Gen.Rs.IV = Spec.IV ∧ Gen.C.IV = Spec.IV ∧ Gen.Ref.IV = Spec.IV ∧
+    Gen.Rs.MSG_SCHEDULE = Gen.C.MSG_SCHEDULE ∧ Gen.Ref.MSG_PERMUTATION = Spec.sigma ∧
+    Gen.Rs.CHUNK_LEN = 1024 ∧ Gen.Rs.BLOCK_LEN = 64 ∧ Gen.Rs.MAX_DEPTH = 54 :=
+  ⟨Proofs.consts_agree.1, Proofs.consts_agree.2.1, Proofs.consts_agree.2.2.1, Proofs.consts_agree.2.2.2.1,
+   Proofs.consts_agree.2.2.2.2.1, by decide, by decide, by decide⟩
+
+/-- non-vacuity: the hypotheses are met by the degrees the crate uses -/
+example : (16 : Nat) = 2 ^ 4 ∧ (1 : Nat) = 2 ^ 0 := by decide
 
 end B3.Props.C01
